@@ -329,6 +329,11 @@ func (s *Surface) Value(v interface{}) string {
 			if !s.Plain && isIdentKey(k) && s.R.Intn(3) != 0 {
 				s.feat("bare-key")
 				b.WriteString(k)
+			} else if !s.Plain && (k == "true" || k == "false" || k == "null") && s.R.Intn(5) == 0 {
+				// a keyword is not an identifier: the document must be rejected, never
+				// converted with a made-up key
+				s.feat("bare-keyword-key")
+				b.WriteString(k)
 			} else {
 				t, _ := s.Str(k)
 				b.WriteString(t)
